@@ -223,6 +223,9 @@ impl Runner {
         if let Some(t) = ftype { f.fs_type = le_bytes(t,f.fs_type.len().max(1)); }
         if let Some(a) = aux { if !f.aux.is_empty() { f.aux = le_bytes(a,f.aux.len()); } }
         if self.fs=="prodos" { f.access = vec![0xE3]; }
+        // CP/M: the access field carries the high bits of the 11 name bytes; those of bytes 5-8 are interface attributes that are
+        // never stored on disk -- a file image that has them set is still a file image of this file
+        if self.fs.starts_with("cpm") && f.access.len()==11 && id%3==0 { f.access[4 + id%4] |= 0x80; }
         sh.ftype = f.fs_type.clone(); sh.aux = f.aux.clone(); sh.access = f.access.clone();
         let key = norm_path(&self.fs,path);
         let existed = self.shadow.contains_key(&key);
